@@ -74,6 +74,12 @@ theorem sendSd_cases (s : Stack) (es : List SDEntry) (d : Dest) (hne : es ≠ []
     · split <;> simp [appendCollector, newCollector, callLater, emit]
     · simp [appendCollector, newCollector, callLater, emit]
 
+@[simp] theorem logOffer_tm (s : Stack) (i : Nat) (e : OEv) : (s.logOffer i e).tm = s.tm := rfl
+@[simp] theorem logOffer_now (s : Stack) (i : Nat) (e : OEv) : (s.logOffer i e).loop.now = s.loop.now := rfl
+@[simp] theorem logOffer_loop (s : Stack) (i : Nat) (e : OEv) : (s.logOffer i e).loop = s.loop := rfl
+@[simp] theorem logOffer_getInst (s : Stack) (i : Nat) (e : OEv) (j : Nat) : (s.logOffer i e).getInst j = s.getInst j := rfl
+@[simp] theorem logOffer_getTask (s : Stack) (i : Nat) (e : OEv) (t : Tid) : (s.logOffer i e).getTask t = s.getTask t := rfl
+
 @[simp] theorem sendOffer_tm (s : Stack) (i : Nat) (r : Dest) (b : Bool) : (s.sendOffer i r b).tm = s.tm := by
   unfold sendOffer; split; rfl; split; rfl; simp
 
